@@ -472,7 +472,11 @@ def py_model(eng, st, name, A, n):
         eng.may_call_python(st, 'getattr', line)
         s_exc = st.clone()
         eng.throw(s_exc, 'pybind11::error_already_set', line, 'from getattr')
-        return [(st, PyObj(fresh('attr', Ref)))]
+        res = PyObj(fresh('attr', Ref))
+        hook = getattr(eng.cur_contract, 'on_getattr', None)
+        if hook and len(A) > 1 and isinstance(A[1], Opaque) and A[1].tag.startswith('pyid:'):
+            hook(eng, st, P(0), A[1].tag[5:], res, n)
+        return [(st, res)]
     if name == 'hash':
         o = P(0)
         eng.may_call_python(st, '__hash__', line)
@@ -534,6 +538,9 @@ def py_model(eng, st, name, A, n):
         eng.throw(s_exc, 'pybind11::error_already_set', line, 'from iterating the dict')
         r = fresh('dict_keys', Ref)
         st.pc.append(z3.And(r != NULL, M.py_is_list(r)))
+        hook = getattr(eng.cur_contract, 'on_dict_keys_result', None)
+        if hook:
+            hook(eng, st, d, r, n)
         return [(st, PyObj(r, fresh=True))]
     if name == 'PyDict_Keys':
         # external contract (A-CAPI): the keys of the dict *storage* as a new list, no Python code runs.  For an exact dict
